@@ -219,6 +219,28 @@ def run(R):
             continue
         check_ip(R, n)
         R.case(("ip", n), True, sample={"kind": "ip", "addr": str(ipaddress.IPv4Address(n))} if j % 700 == 3 else None)
+    # every address whose four octets read as text (digits, hex letters, ':', '.', ' '):
+    # octets are octets, whatever they spell ("::12", "1::2", "ab::", "1.2.", "12  ")
+    alphabet = b"0123456789abcdefABCDEF:. "
+    j = 0
+    for a in alphabet:
+        for b in alphabet:
+            j += 1
+            if not R.mine(j):
+                continue
+            for c in alphabet:
+                for d in alphabet:
+                    packed = bytes((a, b, c, d))
+                    addr = ipaddress.IPv4Address(packed)
+                    got = IpAddress.decode_raw(packed)
+                    if got != addr or type(got) is not ipaddress.IPv4Address or IpAddress(got).encode_raw() != packed:
+                        R.violation({"kind": "ip", "n": int(addr)}, "IpAddress octets %r (text-like) decode to %r, expected %s" % (packed, got, addr), None)
+                        break
+                else:
+                    continue
+                break
+            R.mon["ip_textlike_checked"] += len(alphabet) ** 2
+            R.evaluations += len(alphabet) ** 2
     # ---- contracts ------------------------------------------------------------
     breaches = sum(len(c.breaches) for c in contracts)
     typecontracts.report(R, contracts, decide=False)
